@@ -64,6 +64,10 @@ int sim_limit(const char *name, int dflt)
         if (!strcmp(limits[i].name, name)) {
             if (limits[i].set)
                 return limits[i].v < dflt ? limits[i].v : dflt;
+            /* one name, one default: the result line reports the first default only, and a
+             * replay with explicit limits must regenerate the same plan */
+            if (limits[i].v != dflt)
+                sim_fail("infra:limit-default-conflict", "limit '%s' is used with the defaults %d and %d", name, limits[i].v, dflt);
             return dflt;
         }
     if (nlimits < MAX_LIMITS) {
